@@ -820,7 +820,8 @@ def _initialize_aggregation(
     agg.dtype = {
         "user": dtype,  # Save to automatically choose an engine
         "final": final_dtype,
-        "numpy": (final_dtype,),
+        # indices stay integers in the kernel; a float final dtype (NaN fill_value) is applied when finalizing
+        "numpy": (np.dtype(np.intp),) if _is_arg_reduction(agg) else (final_dtype,),
         "intermediate": tuple(
             (
                 dtypes._normalize_dtype(int_dtype, np.result_type(array_dtype, final_dtype), int_fv)
